@@ -115,6 +115,20 @@ def replay_vectors(ctx, blbin, server, lines, work, threads, label):
         raise vlib.ToolError("blacklist replay (%s): %s" % (label, s["errors"][:3]))
     if s["errors"]:
         ctx.assumptions.append("note: replay %s also had harness errors: %s" % (label, s["errors"][:2]))
+    # Second judgement (see the harness): mismatches that disappear when the same request / configuration is written the
+    # plain way are spec drift - tabs or blanks before a comma, no blank after the colon, CRLF / no final newline in the
+    # list file, `mode` left to its default, no `file` directive are not things C19's statement speaks about.
+    dr = [x["drift"] for x in out if "drift" in x]
+    if dr:
+        groups = {}
+        for m in dr:
+            groups.setdefault((m["got"], m["written_plainly_got"], m["exotic_configuration"]), []).append(m)
+        for (got, pg, ec), ms in list(groups.items())[:10]:
+            ctx.drift("way of writing", "%s: %d of %d case(s) differ only in how the %s is written (observed %s, written plainly %s), e.g. %s" % (
+                label, len(ms), s["drifts"], "configuration" if ec else "request", got, pg, describe(ms[0])), vector_case(dict(ms[0], model="", dev={})))
+    if s.get("configurations_rewritten_plainly"):
+        ctx.drift("way of writing", "%s: %d server instance(s) did not start from a configuration with CRLF / no final newline in the list file, "
+                  "`mode` left to its default or no `file` directive and were started from the plainly written one" % (label, s["configurations_rewritten_plainly"]), None)
     if s["lines"] != len(lines):
         raise vlib.ToolError("harness consumed %d of %d vector lines" % (s["lines"], len(lines)))
     return s, mism
